@@ -1,0 +1,186 @@
+//go:build verif
+
+package lua
+
+// Verification hooks (build tag `verif`): read-only accessors and thin wrappers around
+// unexported structures, used by the /verif correspondence harness.  Not compiled without the tag.
+
+import "fmt"
+
+// VerifSnapshot is a read-only snapshot of the interpreter bookkeeping a protected call must restore.
+type VerifSnapshot struct {
+	Sp           int   // call-stack depth
+	Top          int   // registry top
+	HasFrame     bool  // currentFrame != nil
+	FrameIdx     int   // currentFrame.Idx (or -1)
+	LocalBase    int   // currentFrame.LocalBase (or -1)
+	HasErrorFunc bool  // ls.hasErrorFunc
+	OpenUpvalues []int // register indices of the open-upvalue list, in list order
+	OpenClosed   []bool
+	RegCap       int
+	Dead         bool
+}
+
+func (ls *LState) VerifSnapshot() VerifSnapshot {
+	s := VerifSnapshot{Sp: ls.stack.Sp(), Top: ls.reg.Top(), HasFrame: ls.currentFrame != nil, FrameIdx: -1, LocalBase: -1,
+		HasErrorFunc: ls.hasErrorFunc, RegCap: len(ls.reg.array), Dead: ls.Dead}
+	if ls.currentFrame != nil {
+		s.FrameIdx = ls.currentFrame.Idx
+		s.LocalBase = ls.currentFrame.LocalBase
+	}
+	for uv := ls.uvcache; uv != nil; uv = uv.next {
+		s.OpenUpvalues = append(s.OpenUpvalues, uv.index)
+		s.OpenClosed = append(s.OpenClosed, uv.closed)
+	}
+	return s
+}
+
+// VerifRegistryValues returns a copy of the registry slots [from, to) (Go nil entries are returned as nil).
+func (ls *LState) VerifRegistryValues(from, to int) []LValue {
+	if from < 0 {
+		from = 0
+	}
+	if to > len(ls.reg.array) {
+		to = len(ls.reg.array)
+	}
+	if to < from {
+		return nil
+	}
+	out := make([]LValue, to-from)
+	copy(out, ls.reg.array[from:to])
+	return out
+}
+
+// VerifStringConstants exposes FunctionProto.stringConstants.
+func (p *FunctionProto) VerifStringConstants() []string { return p.stringConstants }
+
+// ---- call-frame stacks ----
+
+type VerifCallStack struct{ cs callFrameStack }
+
+func VerifNewFixedCallStack(size int) *VerifCallStack {
+	return &VerifCallStack{newFixedCallFrameStack(size)}
+}
+func VerifNewAutoCallStack(maxSize int) *VerifCallStack {
+	return &VerifCallStack{newAutoGrowingCallFrameStack(maxSize)}
+}
+
+func verifGuard(f func()) (perr string) {
+	defer func() {
+		if r := recover(); r != nil {
+			perr = fmt.Sprint(r)
+		}
+	}()
+	f()
+	return ""
+}
+
+// Push pushes a frame tagged with `tag` (stored in Pc).
+func (v *VerifCallStack) Push(tag int) string {
+	return verifGuard(func() { v.cs.Push(callFrame{Pc: tag}) })
+}
+
+// Pop returns (tag, idx, isNil, panic).
+func (v *VerifCallStack) Pop() (tag, idx int, isNil bool, perr string) {
+	perr = verifGuard(func() {
+		f := v.cs.Pop()
+		if f == nil {
+			isNil = true
+		} else {
+			tag, idx = f.Pc, f.Idx
+		}
+	})
+	return
+}
+func (v *VerifCallStack) Last() (tag, idx int, isNil bool, perr string) {
+	perr = verifGuard(func() {
+		f := v.cs.Last()
+		if f == nil {
+			isNil = true
+		} else {
+			tag, idx = f.Pc, f.Idx
+		}
+	})
+	return
+}
+func (v *VerifCallStack) At(sp int) (tag, idx int, isNil bool, perr string) {
+	perr = verifGuard(func() {
+		f := v.cs.At(sp)
+		if f == nil {
+			isNil = true
+		} else {
+			tag, idx = f.Pc, f.Idx
+		}
+	})
+	return
+}
+func (v *VerifCallStack) SetSp(sp int) string { return verifGuard(func() { v.cs.SetSp(sp) }) }
+func (v *VerifCallStack) Sp() int             { return v.cs.Sp() }
+func (v *VerifCallStack) IsFull() bool        { return v.cs.IsFull() }
+func (v *VerifCallStack) IsEmpty() bool       { return v.cs.IsEmpty() }
+func (v *VerifCallStack) FreeAll() string     { return verifGuard(func() { v.cs.FreeAll() }) }
+
+// ---- registry ----
+
+type verifOverflow struct{}
+
+type VerifRegistry struct {
+	rg *registry
+}
+
+func (v *VerifRegistry) registryOverflow() { panic(verifOverflow{}) }
+
+func VerifNewRegistry(initialSize, growBy, maxSize int) *VerifRegistry {
+	v := &VerifRegistry{}
+	v.rg = newRegistry(v, initialSize, growBy, maxSize, newAllocator(32))
+	return v
+}
+
+// guard runs f; returns "overflow" when the registry handler was invoked, the panic text for any other panic.
+func (v *VerifRegistry) guard(f func()) (perr string) {
+	defer func() {
+		if r := recover(); r != nil {
+			if _, ok := r.(verifOverflow); ok {
+				perr = "overflow"
+			} else {
+				perr = "gopanic: " + fmt.Sprint(r)
+			}
+		}
+	}()
+	f()
+	return ""
+}
+func (v *VerifRegistry) Push(x LValue) string { return v.guard(func() { v.rg.Push(x) }) }
+func (v *VerifRegistry) Pop() (x LValue, perr string) {
+	perr = v.guard(func() { x = v.rg.Pop() })
+	return
+}
+func (v *VerifRegistry) Get(i int) (x LValue, perr string) {
+	perr = v.guard(func() { x = v.rg.Get(i) })
+	return
+}
+func (v *VerifRegistry) Set(i int, x LValue) string { return v.guard(func() { v.rg.Set(i, x) }) }
+func (v *VerifRegistry) SetNumber(i int, x LNumber) string {
+	return v.guard(func() { v.rg.SetNumber(i, x) })
+}
+func (v *VerifRegistry) SetTop(i int) string { return v.guard(func() { v.rg.SetTop(i) }) }
+func (v *VerifRegistry) Top() int            { return v.rg.Top() }
+func (v *VerifRegistry) Cap() int            { return len(v.rg.array) }
+func (v *VerifRegistry) IsFull() bool        { return v.rg.IsFull() }
+func (v *VerifRegistry) CopyRange(regv, start, limit, n int) string {
+	return v.guard(func() { v.rg.CopyRange(regv, start, limit, n) })
+}
+func (v *VerifRegistry) FillNil(regm, n int) string { return v.guard(func() { v.rg.FillNil(regm, n) }) }
+func (v *VerifRegistry) Insert(x LValue, reg int) string {
+	return v.guard(func() { v.rg.Insert(x, reg) })
+}
+
+// Values returns a copy of slots [0, n) (Go nil entries stay nil).
+func (v *VerifRegistry) Values(n int) []LValue {
+	if n > len(v.rg.array) {
+		n = len(v.rg.array)
+	}
+	out := make([]LValue, n)
+	copy(out, v.rg.array[:n])
+	return out
+}
